@@ -109,25 +109,15 @@ def reported (a : Option Aux) (Z : Int) : Option (Spec.Reported Float) :=
       ⟨if r.ffErr.isNone then some r.ff else none, if r.fiErr.isNone then some r.fi else none,
        if r.fiiErr.isNone then some r.fii else none⟩)
 
-/-- what the specification expects of Bragg_angle / Q given the spacing / angle the library reports -/
+/-- the spacing the library reports for the same crystal and indices (`aux` request), when it is a finite number -/
+def auxD (a : Option Aux) : Option Float := (a.bind (·.d)).filter (·.isFinite)
+
+/-- what the specification expects of Bragg_angle / Q given the spacing the library reports -/
 def expBragg (cr : Option (Crystal Float)) (a : Option Aux) (E : Float) (i j k : Int) : Xrl.Spec.Expect Float :=
-  match cr with
-  | none => .fails
-  | some _ =>
-    if i = 0 ∧ j = 0 ∧ k = 0 then .fails
-    else match a with
-      | none => .any
-      | some a => match a.d with
-        | none => .any
-        | some d => if d.isFinite then Spec.expectBragg (some d) E else .any
+  Spec.expectBraggAt cr (auxD a) E i j k
 
 def expQ (cr : Option (Crystal Float)) (a : Option Aux) (E : Float) (i j k : Int) (rel : Float) : Xrl.Spec.Expect Float :=
-  if E ≤ 0.0 then .fails
-  else if i = 0 ∧ j = 0 ∧ k = 0 then .value 0.0
-  else match expBragg cr a E i j k with
-    | .fails => .fails
-    | .any => .any
-    | .value th => Spec.expectQ (some th) E i j k rel
+  Spec.expectQAt cr (auxD a) E i j k rel
 
 def handle (v : Variant) (tab : Tab) (t : List String) (a : Option Aux) : String :=
   let P := oracle a
@@ -163,7 +153,7 @@ def handle (v : Variant) (tab : Tab) (t : List String) (a : Option Aux) : String
   | ["cmul", a1, a2, b1, b2] => let z := c_mul (pF a1) (pF a2) (pF b1) (pF b2); "ok " ++ fmtF z.1 ++ " " ++ fmtF z.2
   | ["spec.vol", c] => fmtExpect1 (Spec.expectVolume (getC tab c))
   | ["spec.dsp", c, i, j, k] => fmtExpect1 (Spec.expectDSpacing (getC tab c) (pI i) (pI j) (pI k))
-  | ["spec.bragg", c, e, i, j, k] => if (pF e) ≤ 0.0 then "fails" else fmtExpect1 (expBragg (getC tab c) a (pF e) (pI i) (pI j) (pI k))
+  | ["spec.bragg", c, e, i, j, k] => fmtExpect1 (expBragg (getC tab c) a (pF e) (pI i) (pI j) (pI k))
   | ["spec.q", c, e, i, j, k, r] => fmtExpect1 (expQ (getC tab c) a (pF e) (pI i) (pI j) (pI k) (pF r))
   | ["valid", c] =>
     match getC tab c with
